@@ -11,7 +11,7 @@ import re
 import shutil
 
 from vf import core, tools, genbuild, libbuild
-from vf.gen import libgen, collide
+from vf.gen import libgen, collide, advgen
 
 LEVEL = "exploration"
 
@@ -62,12 +62,14 @@ def make_lib(case, d):
     rng = random.Random(case["libseed"])
     if case.get("collide"):
         lib = collide.generate(rng, "liba", case["collide"])
+    elif case.get("adv"):
+        lib = advgen.generate(rng, "liba")
     else:
         # without -string a std::string is an opaque class that no library publishes: the native module then
         # cannot resolve it at import, which is a missing dependency, not a generator defect -> no strings there
         nostr = "-python-native" in case["opts"] and "-string" not in case["opts"]
-        lib = libgen.generate(rng, "liba", size=case.get("size", 1.0), adversarial=case.get("adversarial", False),
-                              strings=not nostr)
+        lib = libgen.generate(rng, "liba", size=case.get("size", 1.0), strings=not nostr,
+                              oddities=case.get("oddities", False))
     lib.write(d)
     return lib
 
@@ -171,7 +173,8 @@ def run_case(ctx, case):
         res.features.add("rejected:" + optkey(opts))
         shutil.rmtree(d, ignore_errors=True)
         return res
-    res.features.add(optkey(opts) + (":collide" if case.get("collide") else ""))
+    res.features.add(optkey(opts) + (":collide" if case.get("collide") else ":adv" if case.get("adv") else
+                                     ":odd" if case.get("oddities") else ""))
     res.sample = dict(libseed=case.get("libseed"), opts=opts, outcome=stage or "built+linked")
     if stage is None:
         res.count("built_ok")
@@ -247,4 +250,13 @@ def main(chk):
         cases.append(dict(id=cid, libseed=rng.randrange(1 << 30), collide=rng.choice([2, 2, 3]),
                           opts=[rng.choice(["-c", "-python-native", "-python"]), "-fnames"] +
                           (["-unique-names"] if rng.random() < 0.5 else [])))
+    # adversarial names / literals, and declarations with unusual types
+    for i in range(chk.pick(12, 120)):
+        cid += 1
+        cases.append(dict(id=cid, libseed=rng.randrange(1 << 30), adv=True,
+                          opts=[rng.choice(BACKENDS), "-fnames", "-string"] + [f for f in ("-promiscuous", "-nomangle", "-unique-names") if rng.random() < 0.3]))
+    for i in range(chk.pick(6, 60)):
+        cid += 1
+        cases.append(dict(id=cid, libseed=rng.randrange(1 << 30), oddities=True, size=0.5,
+                          opts=[rng.choice(BACKENDS), "-fnames", "-string"]))
     chk.run_cases(__name__, cases)
